@@ -179,9 +179,11 @@ func (*TumblingWindow).startEventTime$1
 
 func (*TumblingWindow).sendResult
   props C01 C02
-  modifies tw.sentCount, tw.droppedCount
+  option channel_events
+  modifies tw.sentCount, tw.droppedCount, ghost(sends), ghost(recvs), ghost(dones), ghost(timeouts), ghost(drained)
   before After under-the-blocking-policy-a-batch-waits-the-configured-time-for-room-five-seconds-when-none-is-configured: $arg0 == ite(tw.config.PerformanceConfig.OverflowConfig.BlockTimeout <= 0, 5000000000, tw.config.PerformanceConfig.OverflowConfig.BlockTimeout)
-  ensures true
+  ensures a-batch-is-booked-once-as-sent-or-as-dropped-unless-the-window-is-stopping: (tw.sentCount - old(tw.sentCount)) + (tw.droppedCount - old(tw.droppedCount)) + (ghost(dones) - old(ghost(dones))) == 1
+  ensures it-is-booked-as-sent-exactly-when-it-was-put-on-the-output-channel: tw.sentCount - old(tw.sentCount) == ghost(sends) - old(ghost(sends)) && tw.sentCount >= old(tw.sentCount) && tw.droppedCount >= old(tw.droppedCount)
 
 func (*TumblingWindow).extractLateUpdateDataLocked
   props C02 C01
@@ -362,9 +364,11 @@ func (*SlidingWindow).startEventTime$1
 
 func (*SlidingWindow).sendResult
   props C08 C02
-  modifies sw.sentCount, sw.droppedCount
+  option channel_events
+  modifies sw.sentCount, sw.droppedCount, ghost(sends), ghost(recvs), ghost(dones), ghost(timeouts), ghost(drained)
   before After under-the-blocking-policy-a-batch-waits-the-configured-time-for-room-five-seconds-when-none-is-configured: $arg0 == ite(sw.config.PerformanceConfig.OverflowConfig.BlockTimeout <= 0, 5000000000, sw.config.PerformanceConfig.OverflowConfig.BlockTimeout)
-  ensures true
+  ensures a-batch-is-booked-once-as-sent-or-as-dropped-unless-the-window-is-stopping: (sw.sentCount - old(sw.sentCount)) + (sw.droppedCount - old(sw.droppedCount)) + (ghost(dones) - old(ghost(dones))) == 1
+  ensures it-is-booked-as-sent-exactly-when-it-was-put-on-the-output-channel: sw.sentCount - old(sw.sentCount) == ghost(sends) - old(ghost(sends)) && sw.sentCount >= old(sw.sentCount) && sw.droppedCount >= old(sw.droppedCount)
 
 func (*SlidingWindow).extractWindowDataLocked
   props C08 C02
@@ -519,9 +523,21 @@ extern (*CountingWindow).getKey
 
 func (*CountingWindow).sendResult
   props C09 C04
-  modifies cw.sentCount, cw.droppedCount
+  option channel_events
+  modifies cw.sentCount, cw.droppedCount, ghost(sends), ghost(recvs), ghost(dones), ghost(timeouts), ghost(drained)
   before After under-the-blocking-policy-a-batch-waits-the-configured-time-for-room-five-seconds-when-none-is-configured: $arg0 == ite(cw.config.PerformanceConfig.OverflowConfig.BlockTimeout <= 0, 5000000000, cw.config.PerformanceConfig.OverflowConfig.BlockTimeout)
-  ensures true
+  ensures a-batch-is-booked-once-as-sent-or-as-dropped-unless-the-window-is-stopping: (cw.sentCount - old(cw.sentCount)) + (cw.droppedCount - old(cw.droppedCount)) + (ghost(dones) - old(ghost(dones))) == 1
+  ensures it-is-booked-as-sent-exactly-when-it-was-put-on-the-output-channel: cw.sentCount - old(cw.sentCount) == ghost(sends) - old(ghost(sends)) && cw.sentCount >= old(cw.sentCount) && cw.droppedCount >= old(cw.droppedCount)
+
+// a counting window is cut by its count alone: the manual trigger of the Window interface does nothing to it (a key with
+// fewer than N rows never produces a result), and neither does the global window's
+func (*CountingWindow).Trigger
+  props C09 C04
+  ensures the-manual-trigger-is-a-no-op-no-buffer-is-touched-no-batch-cut: true
+
+func (*GlobalWindow).Trigger
+  props C17 C04 C12
+  ensures the-manual-trigger-is-a-no-op-no-group-is-touched-no-result-produced: true
 
 func (*CountingWindow).createSlot
   props C09 C04
@@ -644,7 +660,8 @@ extern (*GlobalWindow).getKeyAndValues
 func lookupFieldValue
   props C17 C04 C12
   option pure
-  ensures bare-column-direct-lookup: true
+  ensures a-plain-column-is-read-from-the-row-itself-absent-stays-absent: !fieldpath.IsNestedField(field) ==> result1 == dom(data, field) && (dom(data, field) ==> result0 == data[field])
+  ensures a-path-is-resolved-by-the-shared-path-reader: fieldpath.IsNestedField(field) ==> result0 == fieldpath.GetNestedField(boxof(data, map[string]any), field) && result1 == second(fieldpath.GetNestedField(boxof(data, map[string]any), field))
 
 func toAggregateValue
   props C17 C04 C12
@@ -752,8 +769,11 @@ func (*GlobalWindow).Start$1
 
 func (*GlobalWindow).sendResult
   props C17 C04 C12
-  modifies gw.sentCount, gw.droppedCount
+  option channel_events
+  modifies gw.sentCount, gw.droppedCount, ghost(sends), ghost(recvs), ghost(dones), ghost(timeouts), ghost(drained)
   before After under-the-blocking-policy-a-result-waits-the-configured-time-for-room-five-seconds-when-none-is-configured: $arg0 == ite(gw.config.PerformanceConfig.OverflowConfig.BlockTimeout <= 0, 5000000000, gw.config.PerformanceConfig.OverflowConfig.BlockTimeout)
+  ensures a-batch-is-booked-once-as-sent-or-as-dropped-unless-the-window-is-stopping: (gw.sentCount - old(gw.sentCount)) + (gw.droppedCount - old(gw.droppedCount)) + (ghost(dones) - old(ghost(dones))) == 1
+  ensures it-is-booked-as-sent-exactly-when-it-was-put-on-the-output-channel: gw.sentCount - old(gw.sentCount) == ghost(sends) - old(ghost(sends)) && gw.sentCount >= old(gw.sentCount) && gw.droppedCount >= old(gw.droppedCount)
 
 func (*GlobalWindow).reapIdleKeys
   props C17 C04 C12
@@ -880,8 +900,11 @@ func (*SessionWindow).closeExpiredSessions
 
 func (*SessionWindow).sendResult
   props C10 C02 C04
-  modifies sw.sentCount, sw.droppedCount
+  option channel_events
+  modifies sw.sentCount, sw.droppedCount, ghost(sends), ghost(recvs), ghost(dones), ghost(timeouts), ghost(drained)
   before After under-the-blocking-policy-a-batch-waits-the-configured-time-for-room-five-seconds-when-none-is-configured: $arg0 == ite(sw.config.PerformanceConfig.OverflowConfig.BlockTimeout <= 0, 5000000000, sw.config.PerformanceConfig.OverflowConfig.BlockTimeout)
+  ensures a-batch-is-booked-once-as-sent-or-as-dropped-unless-the-window-is-stopping: (sw.sentCount - old(sw.sentCount)) + (sw.droppedCount - old(sw.droppedCount)) + (ghost(dones) - old(ghost(dones))) == 1
+  ensures it-is-booked-as-sent-exactly-when-it-was-put-on-the-output-channel: sw.sentCount - old(sw.sentCount) == ghost(sends) - old(ghost(sends)) && sw.sentCount >= old(sw.sentCount) && sw.droppedCount >= old(sw.droppedCount)
 
 // every watermark the session window receives is acted on: the open sessions are scanned against it, none is skipped
 func (*SessionWindow).startEventTime$1
